@@ -20,6 +20,9 @@ func init() {
 			"NOT decided: 'returns in bounded time' in general; 'no event after Close returned' depends on gocbcore finishing in-flight callbacks.",
 		Assumptions: []string{"gocbcore stops invoking a stream's observer after CloseStream was acknowledged", "VTA call graph over-approximates reachability from the close path"},
 		Rules: []RuleDef{
+			{ID: "C13.R37", Text: "an acknowledgement that arrives after Close does not crash: Close replaces the position map and the dirty marks by fresh maps, never by nil (same rule as C04.R12)", Run: closeResets},
+			{ID: "C13.R36", Text: "what was acknowledged before Close is in the final save: the Ack closure moves the position through the position writer of the stream as it is at that moment — marked and flagged on the maps the next save reads, not on maps remembered at delivery (same rules as C05.R11, C05.R1 and C01.R1)", Run: func(c *Ctx, id string) { ackMoves(c, id); absorbMoves(c, id); c05r1(c, id); c01r1(c, id) }},
+			{ID: "C13.R35", Text: "a request that timed out returns: the signal channel of the operation record is buffered (a completion after the waiter gave up, or on the waiter own goroutine through Cancel, never blocks) and Wait is dispatch error | select{ctx.Done→Cancel, signal} (same rule as C20.R1)", Run: c20r1},
 			{ID: "C13.R1", Text: "teardown order in the client's close path: HealthCheck.Stop ≺ Client.Close; Bus.Unsubscribe ≺ Stream.Close ≺ Client.DcpClose ≺ Client.Close", Run: c13r1},
 			{ID: "C13.R2", Text: "Stream.Close: Observer.Close(all) ≺ closeAllStreams ≺ Observer.CloseEnd(all) ≺ observers←nil; StopSchedule and RollbackMitigation.Stop are called", Run: c13r2},
 			{ID: "C13.R3", Text: "every background loop has a stop that the close path reaches (flag cleared / channel signalled / context cancelled / listener closed)", Run: c13r3},
